@@ -104,6 +104,7 @@ var registry = map[string]*PropDef{
 	"C08": {
 		Harnesses: []HarnessDef{
 			{Pkg: "cmd", Func: "VP_C08_Positions", Quick: map[string]int{"commits": 11}, Thorough: map[string]int{"commits": 25}, Share: 1.00},
+			{Pkg: "cmd", Func: "VP_C08_Twins", Quick: map[string]int{"complen": 1}, Thorough: map[string]int{"complen": 2}, Share: 1.00},
 			{Pkg: "cmd", Func: "VP_C08_Reset", Quick: map[string]int{"complen": 1, "junk": 1}, Thorough: map[string]int{"complen": 1, "junk": 3}, Share: 1.00},
 		},
 		QuickBudget: 10 * time.Minute, ThoroughBudget: 45 * time.Minute, Assumptions: commonAssumptions,
@@ -152,6 +153,7 @@ var registry = map[string]*PropDef{
 	"C14": {
 		Harnesses: []HarnessDef{
 			{Pkg: "cmd", Func: "VP_C14_Walk", Quick: map[string]int{"chain": 20}, Thorough: map[string]int{"chain": 200}, Share: 1.00},
+			{Pkg: "cmd", Func: "VP_C14_Fields", Quick: map[string]int{"biglen": 4200, "msglen": 1, "maxBackEdges": 200000}, Thorough: map[string]int{"biglen": 70000, "msglen": 2, "maxBackEdges": 2000000}, Share: 1.00},
 			{Pkg: "cmd", Func: "VP_C14_Log", Quick: map[string]int{"commits": 4}, Thorough: map[string]int{"commits": 9}, Share: 1.00},
 		},
 		QuickBudget: 10 * time.Minute, ThoroughBudget: 45 * time.Minute, Assumptions: commonAssumptions,
@@ -171,14 +173,15 @@ var registry = map[string]*PropDef{
 	"C17": {
 		Harnesses: []HarnessDef{
 			{Pkg: "cmd", Func: "VP_C17_Add", Quick: map[string]int{"complen": 1}, Thorough: map[string]int{"complen": 2}, Share: 1.00},
+			{Pkg: "cmd", Func: "VP_C17_Forms", Quick: map[string]int{"complen": 1}, Thorough: map[string]int{"complen": 2}, Share: 1.00},
 			{Pkg: "cmd", Func: "VP_C17_Semantics", Quick: map[string]int{}, Thorough: map[string]int{}, Share: 1.00},
 		},
 		QuickBudget: 10 * time.Minute, ThoroughBudget: 45 * time.Minute, Assumptions: commonAssumptions,
 	},
 	"C18": {
 		Harnesses: []HarnessDef{
-			{Pkg: "cmd", Func: "VP_C18_AnyCmd", ThoroughOnly: true, Thorough: map[string]int{"statemask": 255, "maxargs": 3, "arglen": 2, "followup": 0}, Share: 1.00},
-			{Pkg: "cmd", Func: "VP_C18_AnyCmd", Quick: map[string]int{"statemask": 255, "maxargs": 2, "arglen": 1}, Thorough: map[string]int{"statemask": 255, "maxargs": 2, "arglen": 3}, Share: 1.00},
+			{Pkg: "cmd", Func: "VP_C18_AnyCmd", ThoroughOnly: true, Thorough: map[string]int{"statemask": 511, "maxargs": 3, "arglen": 2, "followup": 0}, Share: 1.00},
+			{Pkg: "cmd", Func: "VP_C18_AnyCmd", Quick: map[string]int{"statemask": 511, "maxargs": 2, "arglen": 1}, Thorough: map[string]int{"statemask": 511, "maxargs": 2, "arglen": 3}, Share: 1.00},
 		},
 		QuickBudget: 10 * time.Minute, ThoroughBudget: 45 * time.Minute, Assumptions: commonAssumptions,
 	},
